@@ -13,7 +13,7 @@ LEVEL = 'other'
 TARGETS = [('loaders', f'{m}.{c}.build_tree_handling_errors') for m, c in
            (('json', 'JSON'), ('json', 'JSON5'), ('yaml', 'YAML'), ('xml', 'XML'), ('plist', 'PLIST'))]
 TRUSTED = [
-    'ASSUMED raises-sets of the third-party parsers on malformed input: json -> JSONDecodeError; json5 -> ValueError; '
+    'ASSUMED raises-sets of the third-party parsers on malformed input: json -> JSONDecodeError or UnicodeDecodeError (text-mode read); json5 -> ValueError; '
     'yaml -> YAMLError; xml.etree -> ParseError; plistlib -> ExpatError, InvalidFileException (ValueError), LookupError',
     'os.path.basename is total',
 ]
@@ -33,17 +33,30 @@ CORPUS = {
     'xml': ['<root a="1"><b>text</b><c d="2"/><e><f>x</f></e></root>', '<a><b/><b/></a>'],
     'html': ['<html><body><p class="x">hi</p><br/></body></html>'],
 }
+# documents with multi-byte characters: byte-level truncation cuts inside a character
+NON_ASCII = {
+    'json': ['{"caf\u00e9": ["\u00fc", "\u4e2d\u6587"], "k": "\U0001f600"}'],
+    'json5': ['{a: "caf\u00e9", b: [\'\u4e2d\']}'],
+    'yaml': ['name: "caf\u00e9"\nl:\n  - \u00fc\n  - "\u4e2d\u6587"\n'],
+    'xml': ['<r a="\u00e9"><b>\u4e2d\u6587</b></r>'],
+    'html': ['<html><body><p>caf\u00e9</p></body></html>'],
+}
+for _k, _v in NON_ASCII.items():
+    CORPUS[_k] = CORPUS[_k] + _v
 SUFFIX = {'json': '.json', 'json5': '.json5', 'yaml': '.yml', 'xml': '.xml', 'html': '.html', 'plist': '.plist'}
-DELIMS = set('{}[]<>",:\'/=-')
+DELIMS = set(b'{}[]<>",:\'/=-')
 
 
 def _plist_corpus():
-    return [plistlib.dumps({"a": [1, 2, {"b": "x"}], "c": True}).decode(), plistlib.dumps([1, "two", {"k": 3.5}]).decode()]
+    return [plistlib.dumps({"a": [1, 2, {"b": "x"}], "c": True}).decode(), plistlib.dumps([1, "two", {"k": 3.5}]).decode(),
+            plistlib.dumps({"caf\u00e9": ["\u4e2d\u6587"]}).decode()]
 
 
 def _valid(fmt, text):
-    """Independent notion of validity for the format."""
+    """Independent notion of validity for the format (text: the bytes of the file)."""
     try:
+        if fmt in ('json', 'json5'):
+            text = text.decode('utf-8')
         if fmt == 'json':
             json.loads(text)
         elif fmt == 'json5':
@@ -56,23 +69,26 @@ def _valid(fmt, text):
             import xml.dom.minidom
             xml.dom.minidom.parseString(text)
         elif fmt == 'plist':
-            plistlib.loads(text.encode())
+            plistlib.loads(text)
         return True
     except Exception:
         return False
 
 
 def corruptions(fmt, text, stride=1):
+    """Byte-level corruptions of the UTF-8 encoding of text."""
+    if isinstance(text, str):
+        text = text.encode('utf-8')
     seen = set()
     for i in range(0, len(text), stride):
         cands = [text[:i]]
         if text[i] in DELIMS:
-            cands += [text[:i] + text[i + 1:], text[:i] + text[i] + text[i:]]
+            cands += [text[:i] + text[i + 1:], text[:i] + text[i:i + 1] + text[i:]]
         for c in cands:
             if c not in seen:
                 seen.add(c)
                 yield c
-    for extra in (text + text[-1], text[0] + text, text.replace('<', '<<', 1), text.replace('[', '[[', 1), text.replace('{', '{{', 1)):
+    for extra in (text + text[-1:], text[:1] + text, text.replace(b'<', b'<<', 1), text.replace(b'[', b'[[', 1), text.replace(b'{', b'{{', 1)):
         if extra not in seen:
             seen.add(extra)
             yield extra
@@ -99,7 +115,8 @@ def witnesses(func_result, ob, repo_root, tier):
 def replay(entry, repo_root):
     r = entry.get('replay') or {}
     if r.get('kind') == 'corrupt':
-        f = _run((r['fmt'], r['text'], r['pos']))
+        data = bytes.fromhex(r['hex']) if 'hex' in r else r['text'].encode('utf-8')
+        f = _run((r['fmt'], data, r['pos']))
         return f[0]['what'] if f else None
     return None
 
@@ -112,7 +129,7 @@ def _run(job):
     tf = gt.TempFiles()
     fails = []
     try:
-        bad = tf.write(text, SUFFIX[fmt])
+        bad = tf.write(text, SUFFIX[fmt], binary=True)
         good_text = GOOD.get(fmt) or plistlib.dumps([1]).decode()
         good = tf.write(good_text, SUFFIX[fmt])
         argv = ([bad, good] if pos == 0 else [good, bad]) + ['--no-status', '--no-color', f'--from-{fmt}', f'--to-{fmt}']
@@ -129,8 +146,8 @@ def _run(job):
             cls, what = f'c20-diff-printed:{fmt}', f"stdout is not empty: {out[:80]!r}"
         if cls:
             fails.append({'what': f"{what} [{fmt} file as {'first' if pos == 0 else 'second'} argument: {text[:70]!r}]", 'class': cls,
-                          'input': {'fmt': fmt, 'text': text, 'pos': pos},
-                          'replay': {'kind': 'corrupt', 'fmt': fmt, 'text': text, 'pos': pos}})
+                          'input': {'fmt': fmt, 'bytes': repr(text), 'pos': pos},
+                          'replay': {'kind': 'corrupt', 'fmt': fmt, 'hex': text.hex(), 'pos': pos}})
     finally:
         tf.cleanup()
     return fails
@@ -154,10 +171,10 @@ def bounded(tier, seed, repo_root):
     fails = [f for fs in res for f in fs]
     return [{
         'name': 'C20.fault-enumeration', 'bound': f"{sum(len(v) for v in corp.values())} valid documents over json/json5/yaml/xml/html/"
-        f"plist; truncation at every {'2nd ' if stride == 2 else ''}byte (every byte for short files), deletion/duplication of every "
+        f"plist; byte-level truncation at every {'2nd ' if stride == 2 else ''}byte (every byte for short files, cutting inside multi-byte characters), deletion/duplication of every "
         f"delimiter, doubled brackets/tags; kept only if an independent parser rejects ({rejected} corruptions); both positions",
         'evaluations': len(jobs), 'distinct_nontrivial': rejected, 'exhaustive': stride == 1,
         'rule': 'corrupted file x position -> main(): message naming the file on stderr, empty stdout, non-zero status, no '
                 'uncaught exception; non-trivial = corruption rejected by the independent parser',
-        'failures': fails, 'samples': [{'fmt': j[0], 'text': j[1][:60], 'pos': j[2]} for j in jobs[50:53]],
+        'failures': fails, 'samples': [{'fmt': j[0], 'bytes': repr(j[1][:60]), 'pos': j[2]} for j in jobs[50:53]],
     }]
